@@ -70,7 +70,7 @@ def generate(seed, tier, index):
             # exported and used the right-hand side): the engine keeps running on what it was set up with, the kinetics
             # functions and a newly exported right-hand side follow the assignment
             ops.insert(i_drive + 1, ["set_k", rf.randint(0, m.nh // 2 - 1), rf.choice(["kf", "kr", "kr"]),
-                                     rf.choice([0.25, 0.5, 2.0, 3.0])])
+                                     rf.choice([0.25, 0.5, 2.0, 3.0])] + (["method"] if rf.chance(0.4) else []))
         ops.insert(i_drive, ["kinetics", entries, ac, gen_us(rf)])
     ops.append(["finalize"])
     scripts = [entry]
